@@ -5,6 +5,7 @@ import LithiumModel.Proto
 import LithiumModel.Load
 import LithiumModel.World
 import LithiumModel.Minimize
+import LithiumModel.Pairs
 import LithiumModel.Interest
 import LithiumModel.TempDir
 
@@ -168,8 +169,18 @@ def cmdStrategy (name cfg b p r a verdicts clock : String) : String :=
   match decCfg cfg, decTestcase b p r a, decClock clock with
   | some cfg, some t, some clk =>
     let o := decOracle verdicts
-    match name with
-    | "minimize" => encIt (Strat.minimize cfg o clk t)
+    match name.splitOn ":" with
+    | ["minimize"] => encIt (Strat.minimize cfg o clk t)
+    | ["minimize-around"] => encIt (Strat.around cfg o clk t)
+    | ["minimize-balanced"] => encIt (Strat.balanced cfg o clk t)
+    | ["minimize-collapse-brace", kind] =>
+      let reload : Bytes → Option Testcase := fun d =>
+        match kind with
+        | "line" => (Load.loadLine d).toOption
+        | "char" => (Load.loadChar d).toOption
+        | "symbol" => (Load.loadSymbol Load.DEFAULT_CUT_BEFORE Load.DEFAULT_CUT_AFTER d).toOption
+        | _ => none
+      encIt (Strat.collapse reload cfg o clk t)
     | _ => "bad-op"
   | _, _, _ => "bad-op"
 
